@@ -636,7 +636,7 @@ class C15:
     MAX_ENUM = 30
 
     def configs(self, tier):
-        return ["checked", "release", "checked+hooks"]
+        return ["checked", "release", "checked+hooks", "release+debug_stress_gc"]
 
     def plan(self, tier):
         return 2500 if tier == "quick" else 120000
@@ -733,10 +733,23 @@ class C15:
             # a slice of the plans also runs with collect-at-every-allocation + quarantine: whatever a later snippet
             # can still reach (through globals, closures, fibers, modules) must have survived the failed run
             runs.append(("checked+hooks", {"gc": {"mode": "always", "quarantine": True}}))
+        if key % 64 == 1 or sc.get("force_mc_slice"):
+            # ... and a smaller slice in the optimised build collecting at every allocation, under valgrind (raw active-fiber
+            # pointer, unchecked stack, cached instruction pointer after failed runs and resets)
+            runs.append(("release+debug_stress_gc@memcheck", {}))
         for config, cfg in runs:
             h = ctx.run(config, dict(sc, config=cfg) if cfg else sc)
             stats.inc("executions")
             v = compare(exp, h)
+            if cfg == {}:
+                stats.inc("memcheck_runs")
+                if v:
+                    v["config"] = config
+                    v["msg"] = "[%s] %s" % (config, v["msg"])
+                    res["violation"] = v
+                    res["scenario"] = dict(res["scenario"], force_mc_slice=True)
+                    return res
+                continue
             if v is None and cfg:
                 gc = h.get("gc") or {}
                 stats.inc("gc_slice_runs")
@@ -748,6 +761,7 @@ class C15:
                     v["config"] = config
                     v["msg"] = "[%s] %s" % (config, v["msg"])
                     res["violation"] = v
+                    res["scenario"] = dict(res["scenario"], force_gc_slice=True)     # keeps the slice while the case is minimised
                     return res
                 continue
             if v is None and last_reset is not None and last_reset < len(progs) - 1:
